@@ -427,3 +427,72 @@ def case_kernels(ctx, cfg):
                     results[key] = arr.copy()
                 elif key in results and not (arr.shape == results[key].shape and np.allclose(arr, results[key], equal_nan=True)):
                     ctx.fail(f"kernel-second-call-differs:{name}", name, {"n": n, "batch": batch, "dtype": dt}, "same result on the same arguments", "differs")
+
+
+# ---------------------------------------------------------------------------------------------------
+# the cached epsilon / delta tensors: every order of instantiation gives the tensors of the definition
+
+
+def _tensor_items():
+    from geometer.base import KroneckerDelta, LeviCivitaTensor
+
+    return [
+        ("eps(2)", lambda: LeviCivitaTensor(2)),
+        ("eps(3,contravariant)", lambda: LeviCivitaTensor(3, False)),
+        ("eps(4)", lambda: LeviCivitaTensor(4)),
+        ("delta(2,2)", lambda: KroneckerDelta(2, 2)),
+        ("delta(2,3)", lambda: KroneckerDelta(2, 3)),
+        ("delta(3,2)", lambda: KroneckerDelta(3, 2)),
+        ("delta(3,1)", lambda: KroneckerDelta(3)),
+        ("delta(4,2)", lambda: KroneckerDelta(4, 2)),
+        ("delta(2,4)", lambda: KroneckerDelta(2, 4)),
+        ("delta(3,3)", lambda: KroneckerDelta(3, 3)),
+    ]
+
+
+def enum_tensor_consts(tier, seed):
+    n = len(_tensor_items())
+    for i in range(n):
+        yield ("after", i)
+    yield ("with-geometry", 0)
+
+
+@family("C12", "cached_epsilon_delta", enum_tensor_consts)
+def case_tensor_consts(ctx, cfg):
+    import geometer as G
+    from mc.core import _reset_library_caches
+
+    items = _tensor_items()
+    base = {}
+    for name, mk in items:
+        _reset_library_caches()
+        t = mk()
+        base[name] = (t.array.copy(), t.tensor_shape)
+    kind, i = cfg
+    if kind == "after":
+        first = items[i]
+        for order in (list(items), list(items)[::-1]):
+            _reset_library_caches()
+            first[1]()
+            for name, mk in order:
+                t, e = ctx.call(mk)
+                ctx.trace()
+                ctx.state((first[0], name, order is items))
+                if e is not None or t.array.shape != base[name][0].shape or not np.array_equal(t.array, base[name][0]) or t.tensor_shape != base[name][1]:
+                    ctx.fail(f"tensor-constant:{name}:after:{first[0]}", name, {"first": first[0], "then": [x[0] for x in order[: order.index((name, mk)) + 1]]}, list(base[name][0].shape), e if e is not None else list(t.array.shape))
+                    return
+    else:
+        # geometric operations in between must not change the cached arrays either
+        _reset_library_caches()
+        for name, mk in items:
+            mk()
+        pool = build_pool(G)
+        for act in actions()[::9]:
+            run_action(ctx, G, pool, act)
+            ctx.trace()
+        for name, mk in items:
+            t, e = ctx.call(mk)
+            ctx.state(("with-geometry", name))
+            if e is not None or not np.array_equal(t.array, base[name][0]):
+                ctx.fail(f"tensor-constant:{name}:after-geometry", name, {"after": "every 9th pool action"}, "definition", e if e is not None else "changed")
+                return
